@@ -1208,6 +1208,8 @@ class Gen:
         if not r or not self.room(10):
             return
         qs = [q for q in self.rng.sample(self.QMQ_QUERIES, 2) if hasattr(self, 'g_' + q)]
+        if self.w.get('strip', 0) >= 1 and self.rng.random() < 0.4:
+            qs = [self.rng.choice(['strip', 'rmfix', 'split', 'query', 'partition'])] + qs[:1]
         asked = []
         for q in qs:
             asked += self._with_subject(r, q, False)
@@ -1215,11 +1217,27 @@ class Gen:
                  and not any(k in o for k in ('other', 'new', 'items', 'src'))]
         if not asked:
             return
+        text_changers = ['pad', 'case', 'iadd', 'assign_str', 'replace', 'expandtabs', 'clip', 'strip', 'rmfix']
         for _ in range(self.rng.choice([1, 1, 2])):
-            mname = self.rng.choice(self.QMQ_MUTATORS)
+            # two thirds: a mutator that changes the TEXT (what searches, pieces and strips depend on) or the table length
+            mname = self.rng.choice(text_changers) if self.rng.random() < 0.66 else self.rng.choice(self.QMQ_MUTATORS)
+            n = self.length(r)
             if mname == 'clip':
-                n = self.length(r)
                 self.do({'op': 'clip', 'r': r, 'start': self.rng.choice([None, 0, 0, 1]), 'end': self.rng.choice([None, 0, n - 1, -1, self.bound(r)]), 'inplace': True})
+            elif mname == 'pad':
+                o = {'op': 'pad', 'r': r, 'm': self.rng.choice(['ljust', 'rjust', 'center', 'zfill']), 'width': n + self.rng.randint(1, 4), 'inplace': True}
+                if o['m'] != 'zfill':
+                    fills = [' ', ' ', '-', 'a']
+                    for q_ in asked:        # a fill character that an earlier strip / search was about
+                        if q_['op'] == 'strip':
+                            fills += list(q_.get('chars') or ' ')[:2] * 3
+                        elif q_['op'] in ('query', 'split', 'partition', 'rmfix') and (q_.get('sub') or q_.get('sep') or q_.get('s')):
+                            fills += [(q_.get('sub') or q_.get('sep') or q_.get('s'))[0]] * 2
+                    o['fill'] = self.rng.choice(fills)
+                    o['extend'] = self.rng.random() < 0.6
+                self.do(o)
+            elif mname == 'case':
+                self.do({'op': 'case', 'r': r, 'm': self.rng.choice(['upper', 'swapcase', 'lower', 'title', 'capitalize']), 'inplace': True})
             else:
                 self._with_subject(r, mname, True)
         for o in asked:
@@ -1227,27 +1245,36 @@ class Gen:
                 self.do(_copy.deepcopy(o))
 
     def g_parse_twice(self):
-        """The same raw text converted twice, the first result changed in place in between."""
-        if not self.room(6):
+        """The same conversion (raw text with escape sequences, or text + settings) made twice, the first result changed in
+        place in between: the second result must equal a snapshot of the first taken at once."""
+        if not self.room(8):
             return
         t = self.text(1)
         forms, S = self.settings()
         e = self.do({'op': 'new', 'cls': 'S', 'text': t, 'sets': forms, 'S': S})
         if e['out'] != 'ok' or not e['res']:
             return
-        q = ''.join(chr(c) for c in self.m.snaps[e['res'][0]]['q'])
-        first = self.do({'op': 'new', 'cls': self.rng.choice('SSA'), 'text': q, 'sets': [], 'S': []})
+        if self.rng.random() < 0.7:
+            q = ''.join(chr(c) for c in self.m.snaps[e['res'][0]]['q'])
+            again = {'op': 'new', 'cls': 'S', 'text': q, 'sets': [], 'S': []}
+        else:
+            again = {'op': 'new', 'cls': 'S', 'text': t, 'sets': forms, 'S': S}
+        import copy as _copy
+        first = self.do(_copy.deepcopy(again))
         if first['out'] != 'ok' or not first['res']:
             return
         r = first['res'][0]
-        if self.m.kinds[r] == 'S':
-            n = self.length(r)
+        snap = self.do({'op': 'copy', 'r': r})['res'][0]
+        n = self.length(r)
+        if n:
             forms2, S2 = self.settings()
             self.do({'op': 'apply', 'r': r, 'sets': forms2, 'S': S2, 'start': self.rng.choice([0, 0, 1]), 'end': self.rng.choice([None, n, n - 1]),
                      'top': self.rng.random() < 0.7})
             if self.rng.random() < 0.4:
                 self._with_subject(r, self.rng.choice(['remove', 'iadd', 'pad', 'clip', 'simplify']), True)
-        self.do({'op': 'new', 'cls': self.rng.choice('SSA'), 'text': q, 'sets': [], 'S': []})
+        second = self.do(_copy.deepcopy(again))
+        if second['out'] == 'ok' and second['res']:
+            self.do({'op': 'twincheck', 'a': [snap], 'b': [second['res'][0]], 'tag': 'again'})
 
     def epilogue(self, names):
         """Run the given probe generators on every live library object."""
@@ -1305,7 +1332,7 @@ PROFILES = {
     'C05': weights(add=4, iadd=4, join=2, split_rejoin=2, slice=2, iter_join=1.0, shared_objects=0.8, seam_stop_order=1.0, seam_order=1.2, same_form_nested=1.0, join_plain_escapes=1.0),
     'C06': weights(apply=6, remove=1.5, slice=1, restart_leftover=1.5, bottom_at_begin=1.5, same_form_nested=1.5, apply_match=0.7),
     'C07': weights(remove=4, remove_edge=2.5, apply=5, clear=0.3, remove_prefixlike=1.2, remove_disjoint=1.2),
-    'C08': weights(copy=3, eq=0.8, add=2.5, iadd=2.5, join=1.5, slice=3, new_from=2, replace=2, pad=0.7, strip=0.5, split=0.5, fmt=0.7,
+    'C08': weights(parse_twice=1.5, copy=3, eq=0.8, add=2.5, iadd=2.5, join=1.5, slice=3, new_from=2, replace=2, pad=0.7, strip=0.5, split=0.5, fmt=0.7,
                    matching=0.5, case=0.3),
     'C09': weights(iter_join=1.0, iadd=2.5, replace=1.0, pad=2.0, pad_nested=1.0, pad_huge=0.15, remove_edge=0.7, restart_leftover=0.5, shared_objects=0.8, split=0.7, partition=0.5, strip=0.5, rmfix=0.5, case=0.3,
                    assign_str=0.5, query=0.5, matching=0.5, simplify=0.3, expandtabs=0.3, splitlines=0.3),
